@@ -195,6 +195,14 @@ func (fr *frame) havocLevels(st *State, ms map[string]int) {
 			ft.assume("true", fmt.Sprintf("(forall ((r Ref)) (! (=> (select %s r) (= (select %s r) (select %s r))) :pattern ((select %s r))))", allocOld, nw, old, nw))
 			continue
 		}
+		if strings.HasPrefix(h, "G$ghost$") {
+			if g := ft.e.cs.Ghosts[strings.TrimPrefix(h, "G$ghost$")]; g != nil && g.Mono {
+				old := ft.heapTerm(st, h)
+				ft.havocHeap(st, h)
+				ft.assume("true", sx(">=", ft.heapTerm(st, h), old))
+				continue
+			}
+		}
 		ft.havocHeap(st, h)
 	}
 }
